@@ -9,6 +9,10 @@ CHECKS = {
          'bounded exhaustive enumeration of (grammar, lexer, input) against a reference recogniser'),
  'C04': ('exploration', '4 C04', 'Every grammar of the bounded BNF families (helper spelled a/_a/?a, long alternatives, colliding terminals) x lexer x input is parsed with ambiguity=explicit and the collapsed tree set is compared with the set of shaped derivations from an independent fix-point enumerator; cyclic grammars: termination and soundness of every tree.',
          'bounded exhaustive enumeration of (grammar, lexer, input) against a reference derivation enumerator'),
+ 'C05': ('exploration', '4 C05', 'Every acyclic grammar of the bounded BNF families x priority assignment x priority mode x lexer x ambiguous input: the resolved tree must be a reference derivation with optimal summed priority (empty-alternative clause where applicable), equal to the priority-erased grammar under priority=None, and identical across calls, instances and sub-processes under a bounded set of PYTHONHASHSEED values.',
+         'bounded exhaustive enumeration against a reference derivation enumerator + digest comparison across hash seeds'),
+ 'C20': ('exploration', '4 C20', 'Every grammar of the plain-BNF families (incl. cyclic) x lexer x input is parsed with ambiguity=forest; all forest visitor/transformer classes must terminate, report cycles exactly when an independent graph walk finds one, and the expanded tree set must equal the set of unshaped reference derivations.',
+         'bounded exhaustive enumeration of forests against a reference derivation enumerator and an independent cycle finder'),
 }
 NOT_YET = {}
 def main():
